@@ -157,6 +157,20 @@ CLAIMS = {
         note="Trusted: TLC, digest of the real schema object, recording driver. Known finding D9 (implementer names of "
              "%import-ed types leak into the application schema) is reported as KNOWN-FINDING; everything else is a VIOLATION.",
         technique="TLC trace validation of recorded load/mutate sessions against the TLA+ session spec over the loader spec"),
+    "C19": dict(
+        text="TLC runs the loader specification with its open/close event history on configuration scenarios (0..3 included "
+             "files, %import, missing include targets) x every failure point - a read failure at line n of resource r for all "
+             "(r, n), a datatype function that raises at each position, a section datatype that raises - checking "
+             "AllClosedAtEnd, LifoClose and that parser frames are exactly the open resources; the real load runs with the same "
+             "fault injected and its open/close sequence must equal the specification's, all Resource objects must report "
+             "closed, and the clean load afterwards must behave as specified. Every recorded event trace - also of schema "
+             "loads over an extends / import graph with read faults, XML errors, schema errors, missing, non-UTF-8 and "
+             "unreadable resources - is validated by TLC against ZResources (streams closed as soon as read, LIFO nesting, "
+             "nothing open at the end).",
+        design="3 (C19), 1.2",
+        note="Trusted: TLC, the run-time wrappers of ZConfig.loader.Resource and urllib.request.urlopen (harness/zcv/obs.py). "
+             "Schema loading is covered at the level of the resource discipline only (no ZSchemaLang events yet).",
+        technique="TLA+ loader spec with resource events + fault actions model-checked and replayed with injected faults; TLC trace validation against the resource-discipline spec"),
 }
 
 NOT_YET = "check not built yet (construction order in DESIGN.md section 8)"
